@@ -112,6 +112,7 @@ func (e *Engine) load(u Unit, repoRoot string) error {
 		}
 	}
 	e.declare("(declare-fun strlen (Int) Int)")
+	e.declare("(assert (= (strlen 0) 0))")
 	e.declare("(declare-fun objkind (Int) Int)")
 	e.declare("(declare-fun objowner (Int) Int)")
 	return nil
@@ -269,6 +270,21 @@ func (e *Engine) verifyFunc(f *ssa.Function) *FnRun {
 				vars[c.Name] = v
 			}
 		}
+	}
+	// package axioms (closed formulas over uninterpreted functions)
+	for _, ax := range r.cs.Axioms {
+		ctx := &EvalCtx{run: r, st: st, vars: map[string]*V{}, pkg: f.Pkg.Pkg, cs: r.cs, what: "axiom " + ax.Name}
+		file := ""
+		if len(r.cs.Files) > 0 {
+			file = r.cs.Files[0]
+		}
+		t, err := safeBool(ctx, ax.E, file, ax.Line)
+		if err != nil {
+			r.errs = append(r.errs, err.Error())
+			continue
+		}
+		st.assume(t)
+		r.axiomsUsed = append(r.axiomsUsed, ax.Name)
 	}
 	r.entry = st.clone()
 	// canary: the assumptions at entry must be satisfiable
@@ -484,4 +500,58 @@ func renameExpr(e *Expr, ren map[string]string) *Expr {
 		n.Args = append(n.Args, renameExpr(a, ren))
 	}
 	return &n
+}
+
+// typeLevelObligations: checks decided on the types alone (no solver): declared JSON member names of a struct.
+func (e *Engine) typeLevelObligations() []*Obligation {
+	var out []*Obligation
+	for _, p := range e.loadedPkgs {
+		cs := e.contracts[p.Pkg.Path()]
+		if cs == nil {
+			continue
+		}
+		for _, tn := range sortedKeys(cs.Types) {
+			td := cs.Types[tn]
+			if len(td.JSONMembers) == 0 {
+				continue
+			}
+			o := p.Pkg.Scope().Lookup(tn)
+			if o == nil {
+				continue
+			}
+			stt, ok := o.Type().Underlying().(*types.Struct)
+			if !ok {
+				continue
+			}
+			var got []string
+			for i := 0; i < stt.NumFields(); i++ {
+				n := stt.Field(i).Name()
+				if tag := reflectTag(stt.Tag(i), "json"); tag != "" {
+					if q := strings.Split(tag, ","); q[0] != "" {
+						n = q[0]
+					}
+					if strings.Contains(tag, ",omitempty") {
+						n += "?"
+					}
+				}
+				got = append(got, n)
+			}
+			goal := "true"
+			if strings.Join(got, ",") != strings.Join(td.JSONMembers, ",") {
+				goal = "false"
+			}
+			label, tags, _ := parseLabel(td.JSONLabel + ": x")
+			name := "type " + tn + "/json-members:" + label
+			ob := &Obligation{Name: name, Func: "type " + tn, Pkg: p.Pkg.Path(), Kind: "json-members", Label: label, Tags: tags,
+				Query: &Query{Goal: goal}, Pos: fmt.Sprintf("%s:%d", td.JSONFile, td.JSONLine), ClauseKey: name, Expect: "unsat",
+				PathDesc: "declared: " + strings.Join(td.JSONMembers, ",") + " / found: " + strings.Join(got, ",")}
+			st := "unsat"
+			if goal == "false" {
+				st = "sat"
+			}
+			ob.Result = &SolverResult{Status: st, Solver: "go/types", Model: ob.PathDesc}
+			out = append(out, ob)
+		}
+	}
+	return out
 }
